@@ -337,8 +337,9 @@ def run_paths(chk: Check, cfg: str, root: str, spellings_per_case: int, cap=None
 # Part B: start-up race on a real client
 # ---------------------------------------------------------------------------
 
-_LABEL = re.compile(r'(Choose|Mkdir|Touch|Start|Open|Finish)\((\d+)\)')
-_STIM = {'Choose': 'start', 'Mkdir': 'dir', 'Touch': 'open', 'Open': 'open', 'Finish': 'finish'}
+_LABEL = re.compile(r'(Choose|Wait|Mkdir|Touch|Start|Open|Finish|Abort)\((\d+)\)')
+_STIM = {'Choose': 'start', 'Wait': 'start', 'Mkdir': 'dir', 'Touch': 'open', 'Open': 'open', 'Finish': 'finish',
+         'Abort': 'abort'}
 FINAL_STATES = {'COMPLETE', 'FAILED', 'ABORTED', 'PAUSED', 'INCOMPLETE', 'QUEUED', 'VIRGIN'}
 
 
@@ -347,8 +348,30 @@ def stimuli_of(labels):
     for lab in labels:
         m = _LABEL.match(lab)
         if m and m.group(1) in _STIM:
-            out.append((_STIM[m.group(1)], int(m.group(2))))
+            st = (_STIM[m.group(1)], int(m.group(2)))
+            if st[0] == 'start' and st in out:      # Wait(d) then Choose(d): the download arrives once
+                continue
+            out.append(st)
     return tuple(out)
+
+
+def through_first_abort(stim):
+    """The schedule up to and including its first abort (a prefix of a behaviour is a behaviour);
+    everything else is left to the drain phase, which first lets every other download arrive."""
+    for i, st in enumerate(stim):
+        if st[0] == 'abort':
+            return stim[:i + 1]
+    return None
+
+
+def abort_context(stim):
+    """Who is aborted first and how far every download had got by then."""
+    prog: dict = {}
+    for what, d in stim:
+        if what == 'abort':
+            return d, tuple(sorted((k, tuple(v)) for k, v in prog.items()))
+        prog.setdefault(d, []).append(what)
+    return None
 
 
 def case_of_state(st):
@@ -433,7 +456,13 @@ class RaceRunner:
             def diff_fs():
                 cur = snapshot(caseroot)
                 new = sorted(cur - seen_snap[0])
+                gone = sorted(seen_snap[0] - cur)
                 seen_snap[0] = cur
+                for kind, rel in gone:
+                    if kind == 'f' and rel.startswith('dl' + os.sep):
+                        log.append(('removed', [sp.abstract(c) for c in rel[3:].split(os.sep)]))
+                    elif not rel.startswith('dl' + os.sep):
+                        log.append(('created_outside', 'removed:' + kind + ':' + rel[:80]))
                 for kind, rel in new:
                     if rel == 'dl' or rel.startswith('dl' + os.sep):
                         if kind == 'f':
@@ -507,6 +536,7 @@ class RaceRunner:
             reported_final = [False] * n
             started = [False] * n
             sent = [False] * n
+            aborted = [False] * n
 
             def poll():
                 diff_fs()
@@ -541,6 +571,10 @@ class RaceRunner:
                     elif entry[0] == 'iofail':
                         if reported_choice[entry[1] - 1]:
                             events.append(dict(ev='iofail', d=entry[1], exc=entry[3]))
+                    elif entry[0] in ('aborting', 'abort_refused'):
+                        events.append(dict(ev=entry[0], d=entry[1]))
+                    elif entry[0] == 'removed':
+                        events.append(dict(ev='removed', rel=entry[1]))
                     elif entry[0] == 'created':
                         events.append(dict(ev='created', rel=entry[1]))
                     elif entry[0] == 'created_outside':
@@ -564,11 +598,32 @@ class RaceRunner:
                 fep.send(struct.pack('<I', 500 + d - 1))
                 feps[d] = fep
 
+            aborts = []
+
+            async def abort(d):
+                t = transfers[d - 1]
+                try:
+                    await client.transfers.abort(t)
+                except asyncio.CancelledError:
+                    raise
+                except Exception as exc:     # the call raised: an observation
+                    log.append(('abort_refused', d))
+                    info.setdefault('abort_errors', []).append(type(exc).__name__)
+
             async def step(stim):
                 what, d = stim
                 if d < 1 or d > n:
                     return
-                if what == 'start':
+                pending[d][:] = [g for g in pending[d] if not g[3].done()]     # cancelled with their task
+                if what == 'abort':
+                    if aborted[d - 1] or transfers[d - 1].state.VALUE.name in FINAL_STATES:
+                        return
+                    aborted[d - 1] = True
+                    log.append(('aborting', d))
+                    aborts.append(asyncio.create_task(abort(d), name=f'harness-abort-{d}'))
+                elif aborted[d - 1]:
+                    return
+                elif what == 'start':
                     await start(d)
                 elif what == 'dir':
                     for _ in range(3):
@@ -598,7 +653,10 @@ class RaceRunner:
 
             for stim in schedule:
                 await step(stim)
-            # drain: everything still pending is released, every upload is delivered
+            # drain: every other download arrives, then everything still pending is released and
+            # every upload is delivered
+            for d in range(1, n + 1):
+                await step(('start', d))
             for _ in range(4):
                 for d in range(1, n + 1):
                     await step(('finish', d))
@@ -625,7 +683,7 @@ def race_schedules(chk: Check, thorough: bool):
     """(case, stimuli) pairs projected from TLC behaviours of the race model in the code's position
     (no lock: the largest set of interleavings)."""
     scheds = {}
-    g, res = tlc.dump_graph(SPEC, 'MC_race2_graph.cfg', parse_states='init', timeout=900, workers=WORKERS)
+    g, res = tlc.dump_graph(SPEC, 'MC_race2_graph.cfg', parse_states='init', timeout=900, workers=1)
     if res.issues:
         raise MachineryFailure(f'graph dump failed: {[(i.kind, i.name) for i in res.issues]}')
     paths = tlc.path_cover(g)
@@ -638,6 +696,31 @@ def race_schedules(chk: Check, thorough: bool):
                                  schedules=len(scheds))
     chk.log(f'race graph: {len(g.states)} states, {len(g.edges)} edges, {len(paths)} cover paths, '
             f'{len(scheds)} schedules')
+    # cancellation: 3 downloads, the user aborts downloads that wait for / are inside / have left the
+    # path reservation (design position: the same run is the exhaustive check of that model)
+    gc, resc = tlc.dump_graph(SPEC, 'MC_cancel3.cfg', parse_states='init', timeout=900, workers=1, coverage=True)
+    missing = [a for a in ('Wait', 'Abort', 'Choose', 'Touch') if resc.coverage.get(a, (0, 0))[1] == 0]
+    if missing:
+        raise MachineryFailure(f'vacuity: actions never taken in MC_cancel3.cfg: {missing}')
+    chk.add_model('Naming cancellation, 3 downloads with aborts (exhaustive, repaired design)', resc)
+    cpaths = tlc.path_cover(gc)
+    nfull = npre = 0
+    for p in cpaths:
+        case = case_of_state(gc.states[p[0][0]])
+        st = stimuli_of([e[1] for e in p])
+        if not st:
+            continue
+        pre = through_first_abort(st)
+        if pre and (case, pre) not in scheds:
+            scheds[(case, pre)] = 'cancel3-prefix'
+            npre += 1
+        if (case, st) not in scheds:
+            scheds[(case, st)] = 'cancel3'
+            nfull += 1
+    chk.cov['cancel_graph'] = dict(states=len(gc.states), edges=len(gc.edges), cover_paths=len(cpaths),
+                                   schedules=nfull, prefixes_through_first_abort=npre)
+    chk.log(f'cancel graph: {len(gc.states)} states, {len(gc.edges)} edges, {len(cpaths)} cover paths, '
+            f'{nfull} schedules + {npre} prefixes ending with the first abort')
     if thorough:
         behs, sres = tlc.simulate_behaviours(SPEC, 'MC_race3_graph.cfg', num=400, depth=16, seed=chk.seed + 7,
                                              timeout=900)
@@ -655,18 +738,39 @@ def race_schedules(chk: Check, thorough: bool):
 
 def run_races(chk: Check, root: str, thorough: bool):
     scheds = race_schedules(chk, thorough)
-    keys = sorted(scheds, key=repr)
-    cap = 1600 if thorough else 150
-    if len(keys) > cap:
-        # keep every distinct interleaving (stimulus sequence) at least once, then fill up
-        chk.rng.shuffle(keys)
-        by_sched, rest = {}, []
-        for k in keys:
-            if k[1] not in by_sched and len(by_sched) < cap:
-                by_sched[k[1]] = k
-            else:
-                rest.append(k)
-        keys = sorted(list(by_sched.values()) + rest[:max(0, cap - len(by_sched))], key=repr)
+    groups = {}
+    for k in sorted(scheds, key=repr):
+        groups.setdefault(scheds[k], []).append(k)
+    keys = []
+    for src, ks in groups.items():
+        if src == 'cancel3-prefix':
+            if thorough:
+                keys += ks
+                continue
+            # quick: every context of a first abort (who is aborted, how far each download got) once,
+            # the initial state (chain, pre-existing files) drawn with the seed
+            chk.rng.shuffle(ks)
+            seen_ctx = set()
+            for k in ks:
+                ctx = abort_context(k[1])
+                if ctx not in seen_ctx:
+                    seen_ctx.add(ctx)
+                    keys.append(k)
+            chk.cov['cancel_contexts_run'] = len(seen_ctx)
+            continue
+        cap = {'cover2': 1600 if thorough else 150, 'cancel3': 2500 if thorough else 40}.get(src, 1 << 30)
+        if len(ks) > cap:
+            # keep every distinct interleaving (stimulus sequence) at least once, then fill up
+            chk.rng.shuffle(ks)
+            by_sched, rest = {}, []
+            for k in ks:
+                if k[1] not in by_sched and len(by_sched) < cap:
+                    by_sched[k[1]] = k
+                else:
+                    rest.append(k)
+            ks = list(by_sched.values()) + rest[:max(0, cap - len(by_sched))]
+        keys += ks
+    keys = sorted(keys, key=repr)
     runner = RaceRunner(root)
     traces, metas = [], []
     unfinished = 0
@@ -682,6 +786,8 @@ def run_races(chk: Check, root: str, thorough: bool):
         chk.count((case, stim, sp.profile, style), nontrivial=sum(1 for e in ev if e['ev'] == 'chosen') >= 2)
     chk.cov['race_runs'] = len(traces)
     chk.cov['race_cover_schedules_run'] = sum(1 for k in keys if scheds[k] == 'cover2')
+    chk.cov['cancel_schedules_run'] = sum(1 for k in keys if scheds[k].startswith('cancel3'))
+    chk.cov['aborts_issued'] = sum(1 for t in traces for e in t if e['ev'] == 'aborting')
     chk.cov['race_transfers_unfinished'] = unfinished
     return traces, metas
 
@@ -840,6 +946,25 @@ def selftest(chk: Check, path_traces, race_traces):
     bad.append([head, c1, dict(ev='created', rel=['n2', 'n1']), dict(c1, d=2, rel=['n2', 'n1#1']),
                 dict(ev='created', rel=['n2', 'n1#1']), dict(ev='finished', d=1), dict(ev='finished', d=2)])
     expect.append('clean')
+    # cancellation: after the abort of a download that only waited, a third download is given the
+    # path of the one still reserving (lock lost) -> marked; correct twin (third one is numbered
+    # after the holder created its file; the aborted holder's file is removed and its name reused)
+    head3 = dict(ev='case', chain='DN', files=[], dirs=[], remotes=[['n1'], ['n1'], ['n1']])
+    a = dict(ev='chosen', d=1, rel=['n1'], existed=False, realInside=True)
+    bad.append([head3, a, dict(ev='aborting', d=2), dict(a, d=3), dict(ev='created', rel=['n1']),
+                dict(ev='finished', d=1), dict(ev='finished', d=3)])
+    expect.append('mark')
+    bad.append([head3, a, dict(ev='aborting', d=2), dict(ev='created', rel=['n1']), dict(a, d=3, rel=['n1#1']),
+                dict(ev='created', rel=['n1#1']), dict(ev='finished', d=1), dict(ev='finished', d=3)])
+    expect.append('clean')
+    bad.append([head3, a, dict(ev='created', rel=['n1']), dict(ev='aborting', d=1), dict(ev='removed', rel=['n1']),
+                dict(ev='finished', d=1), dict(a, d=3), dict(ev='created', rel=['n1']), dict(ev='finished', d=3)])
+    expect.append('clean')
+    # an aborted download that is given a path afterwards, a vanished file nobody owns
+    bad.append([head3, dict(ev='aborting', d=2), dict(a, d=2)])
+    expect.append('reject')
+    bad.append([dict(head3, files=[['n1']]), dict(ev='removed', rel=['n1'])])
+    expect.append('reject')
     v = tlc.validate_traces(TRACE, 'Trace.cfg', [_strip(t) for t in bad], max_diag=0, workers=WORKERS, timeout=600)
     wrong = []
     for i, e in enumerate(expect):
@@ -912,6 +1037,11 @@ def run(chk: Check, args):
     teeth1 = sorted({i.name for i in rc.issues if i.kind == 'invariant'})
     rc2 = tlc.run_tlc(SPEC, 'MC_race2_code.cfg', timeout=900)
     teeth2 = sorted({i.name for i in rc2.issues if i.kind == 'invariant'})
+    rc3 = tlc.run_tlc(SPEC, 'MC_cancel3_code.cfg', timeout=900)
+    teeth3 = sorted({i.name for i in rc3.issues if i.kind == 'invariant'})
+    chk.cov['binding_selftest']['model_with_foreign_lock_release_violates'] = teeth3
+    if 'DistinctActivePaths' not in teeth3 and 'LockHeld' not in teeth3:
+        raise MachineryFailure(f'foreign-release design model did not violate the properties: {teeth3}')
     chk.cov['binding_selftest']['model_without_dot_sanitising_violates'] = teeth1
     chk.cov['binding_selftest']['model_with_check_then_create_violates'] = teeth2
     if not (set(teeth1) & {'Inside', 'RegularName'}) or 'DistinctActivePaths' not in teeth2:
@@ -953,7 +1083,9 @@ def run(chk: Check, args):
                          '(not a verdict: the property constrains the result, not the algorithm)')
     rg = chk.cov.get('race_graph', {})
     chk.cov['exhaustive'] = bool(chk.cov.get('cases_equal_model_init_states')) and \
-        chk.cov.get('race_cover_schedules_run', 0) >= rg.get('schedules', 1 << 30)
+        chk.cov.get('race_cover_schedules_run', 0) >= rg.get('schedules', 1 << 30) and \
+        chk.cov.get('cancel_schedules_run', 0) >= sum(chk.cov.get('cancel_graph', {}).get(k, 1 << 30)
+                                                      for k in ('schedules', 'prefixes_through_first_abort'))
     selftest(chk, ptraces, rtraces)
     chk.assumptions += [
         'POSIX file system semantics; no symbolic links inside the download directory; outside it only its ancestors matter',
@@ -961,6 +1093,8 @@ def run(chk: Check, args):
         'applied last (DN, DKN, KDN): DefaultNamingStrategy alone returns an existing name by design',
         'chains without DefaultNamingStrategy never produce a file name and are outside the domain',
         'a path for which the code raises instead of choosing is a refusal and acceptable when nothing was created',
+        'a download stops being active when the user calls TransferManager.abort for it (recorded at the call) or when '
+        'creating its directory / opening its file raised an OSError (seen by the harness that executes the gated call)',
         'remote paths: <= 3 components (quick; 4 sampled in thorough) over {.., ., empty, @@alias, drive letter, names}; '
         'long and non-ASCII names enter as spellings of the name kinds',
     ]
